@@ -359,6 +359,13 @@ def run(ctx: Context, rep) -> None:
     # nothing read from the dataset's files / the environment is memoised
     from sa.rules import shared as _shm
     _shm.check_no_memo(ctx, rep, "C03.memo")
+    # unshuffled concurrent reading covers the stream batch by batch (same
+    # check as C02.batch); writers get sibling directories directly under the
+    # split (same check as C09.fresh)
+    from sa.rules import shared as _sh03
+    _sh03.share_rules(ctx, rep, "c02", {"C02.batch": "C03.cover"})
+    _sh03.share_rules(ctx, rep, "c09", {"C09.fresh": "C03.writer-dirs"})
+    _shm.check_log_args_pure(ctx, rep, "C03.log")
     # write order is list order: shards enter a list's `shard_files` at the
     # end only
     rep.rule(
